@@ -38,6 +38,7 @@ def obligations():
     return obs
 SPEC = {
     'property': 'C08',
+    'level': 'other',   # solver-decided batches of enumerated call histories: see assumptions
     'functions_of_interest': ['MockSupport', 'MockCheckedActualCall', 'MockCheckedExpectedCall', 'MockExpectedCallsList', 'MockNamedValueList'],
     'assumptions': [
         'bounded HISTORY exploration by enumeration: every history of the stated families is one concrete path through the real mock engine inside the symbolic executor; '
@@ -59,7 +60,7 @@ SPEC = {
         'config': {'ext': True, 'heapcheck': False, 'stubs': STUBS},
         # open findings: KF-C08-1 (diagnosis precedence under strict order: histories that end with an open expectation AND an out-of-turn call are excluded),
         # KF-C08-2 (stale "object was passed" mark: histories in which a successful call leaves such a mark and a later call to that function names no object are excluded)
-        'defines': ['-DKF_C08_1', '-DKF_C08_2'],
-        'obligations': obligations(),
+        'defines': [],   # KF-C08-2 is fixed in /repo; the open KF-C08-1 is added by run.py from known_findings.json
+        'obligations': obligations() + [{'fn': 'finding_order_hidden_by_unfulfilled', 'expect': 'fail', 'unwind': 8, 'timeout': 600, 'bounds': 'strict order; expectNCalls(2,a); expectOneCall(b); actual b, a (open known finding KF-C08-1)'}],
     }],
 }
